@@ -28,8 +28,8 @@ LAYOUT_ARGS = ["l0", "l1", "l2", "ha", "a0", "g1", "a1", "hb", "b0", "c0", "c1"]
 LAYOUT_PRE = ["l0 >= 1 and l1 >= 1 and l2 >= 1 and a0 >= 1 and a1 >= 1 and b0 >= 1 and c0 >= 1 and c1 >= 1",
               "ha >= 0 and g1 >= 0 and hb >= 0"]
 
-CIG = "5=3X12I"
-REV = "12I3X5="
+CIG = "3S5=2N3X12I1P4D7M2H"
+REV = "2H7M4D1P12I3X2N5=3S"
 TAGS = [("tp:A:", "P"), ("NM:i:", "0"), ("cg:Z:", CIG), ("dv:f:", "0.0271"), ("zz:Z:", "end")]
 
 
